@@ -18,6 +18,7 @@ Decided:
                function's answer / absence
   R-CANCEL-FWD every cancel hook forwards to the current delegate's cancel() when one exists
   R-GUARDED    the throttle queue, the retry job list and the stop flag are only mutated with the executor's lock
+               (and the boolean combinators register chain_cancel(output, input) per input; shared with C14)
 Not decided: 'running => cancel False and completes normally' depends on the delegate; all interleavings of
 cancel with resolution.
 """
